@@ -39,10 +39,11 @@ def host_entry(g, variant, gid=None):
     return Entry(gid, g, 'host%d' % variant, hg.tla_json(), hg.desc_text())
 
 
-def gen_entry(g, gid=None, dflt=()):
+def gen_entry(g, gid=None, dflt=(), limits=None):
     gid = gid or ('%s@gen' % g.name)
     e = Entry(gid, g, 'gen', gen_tu.tla_json(g, gid, dflt))
     e.dflt = tuple(dflt)
+    e.limits = limits
     return e
 
 
@@ -80,7 +81,7 @@ def run_harness(entries, workname):
     for e in gens:
         src = os.path.join(work, e.gid.replace('@', '_').replace('/', '_') + '.cpp')
         with open(src, 'w') as f:
-            f.write(gen_tu.lex_tu(e.gid, e.lexterms) if hasattr(e, 'lexterms') else gen_tu.tu_source(e.g, e.gid, getattr(e, 'dflt', ())))
+            f.write(gen_tu.lex_tu(e.gid, e.lexterms) if hasattr(e, 'lexterms') else gen_tu.tu_source(e.g, e.gid, getattr(e, 'dflt', ()), getattr(e, 'limits', None)))
         specs.append(('gen_' + e.gid.replace('@', '_'), src, ()))
     gbins = vlib.build_many(specs) if specs else {}
     runs = []
